@@ -756,7 +756,7 @@ def translate_links(repo):
 # dangling Weak (self.inner() == None).
 HTOK = re.compile(r"\s*(?:(\d+)|(usize::MAX)|(debug_assert!\((?:[^()]|\((?:[^()]|\([^()]*\))*\))*\);)|"
                   r"(Weak \{[^{}]*\})|((?:Rc|Self)::from_inner\([^()]*(?:\([^()]*\))?[^()]*\))|"
-                  r"([A-Za-z_][A-Za-z_0-9]*)|(\|\||&&|==|!=|<=|>=|=>|[-+!(){};.,=<>?|]))")
+                  r"([A-Za-z_][A-Za-z_0-9]*)|(\|\||&&|==|!=|<=|>=|=>|::|[-+!(){};.,=<>?|&]))")
 
 
 def htokenize(src):
@@ -947,6 +947,15 @@ class HP:
             if name not in self.methods:
                 raise Unsupported("unknown counter method " + name)
             return "g_%s" % name, None
+        if self.at("Rc", "::") and self.peek(2)[1] in ("weak_count", "strong_count") and self.peek(3) == ("op", "("):
+            name = self.peek(2)[1]
+            for _ in range(4):
+                self.eat()
+            if self.peek() == ("op", "&"):
+                self.eat()
+            self.eat("id", "this")
+            self.eat("op", ")")
+            return "g_rc_%s" % name, None
         raise Unsupported("unexpected token %s at %d" % (tk, self.i))
 
 
@@ -954,6 +963,7 @@ HANDLE_FNS = [("rc_weak_count", r"pub fn weak_count\(this: &Self\) -> usize \{",
               ("rc_strong_count", r"pub fn strong_count\(this: &Self\) -> usize \{", "N", False),
               ("rc_clone", r"fn clone\(&self\) -> Rc<T> \{", "unit", False),
               ("rc_downgrade", r"pub fn downgrade\(this: &Self\) -> Weak<T> \{", "unit", False),
+              ("rc_is_unique", r"fn is_unique\(this: &Self\) -> bool \{", "bool", False),
               ("weak_upgrade", r"pub fn upgrade\(&self\) -> Option<Rc<T>> \{", "bool", True),
               ("weak_strong_count", r"pub fn strong_count\(&self\) -> usize \{", "N", True),
               ("weak_weak_count", r"pub fn weak_count\(&self\) -> usize \{", "N", True),
